@@ -25,7 +25,7 @@ PROBES = {"C13": ["stretch_inside_training", "stretch_overlapping_end", "stretch
                   "fit_transform_on_fitted_instance", "unpaired_calls_checked",
                   "sibling_from_same_arguments", "refitted_on_structureless_series",
                   "failed_refit_checked", "non_consecutive_training_index", "integer_valued_series",
-                  "update_with_older_data"]}
+                  "update_with_older_data", "stale_update_inside_training"]}
 FAULT_KINDS = {"C13": ["index_shift", "pickle_roundtrip", "update_interleaved", "overlap_batch",
                        "shared_constructor_arguments", "fit_raises_midway"]}
 RULE = {"C13": (
@@ -45,6 +45,10 @@ SAME_INDEX = {"log", "detrend", "deseason", "cdeseason", "adapt", "boxcox", "ham
 
 def gen_spec(rng):
     r = rng.random()
+    if r < 0.07:
+        # a trend removed by a window forecaster (forecast in-sample by moving the cutoff)
+        return {"kind": "detrend", "forecaster": {"kind": "naive", "strategy": rng.choice(["last", "mean", "drift"]),
+                                                  "sp": 1, "window_length": rng.choice([3, 4])}}
     if r < 0.62:
         t = C.gen_transformer(rng)
         if t["kind"] == "boxcox" and rng.random() < 0.4:
@@ -157,7 +161,8 @@ def generate(prop, rng, tier):
         elif r < 0.82:
             take = rng.choice([1, 2, 3, 5, 8]) if minstretch == 1 else rng.choice([8, 10, 12])
             ops.append({"op": "update", "take": take, "overlap": rng.choice([0, 0, 1, 2]),
-                        "up": rng.random() < 0.5, "before": rng.random() < 0.12})
+                        "up": rng.random() < 0.5, "before": rng.random() < 0.12,
+                        "stale": rng.random() < 0.15})
             total += take
         elif r < 0.88:
             ops.append({"op": "fit_transform", "strided": rng.random() < 0.4})
@@ -259,6 +264,7 @@ def execute(prop, scen):
     updates_since_fit = 0
     seasonal_ref = None
     offstart = 0
+    stale_seen = False      # a batch of older data moved the cutoff back since the last fit
 
     def v(cls, detail, **sig):
         sig.setdefault("transformer", base["kind"] if kind != "ttf_t" else "ttf_t")
@@ -278,8 +284,9 @@ def execute(prop, scen):
     def after_fit():
         """remember the fitted seasonal components of the primary and check them against the
         classical decomposition of the training series"""
-        nonlocal seasonal_ref
+        nonlocal seasonal_ref, stale_seen
         seasonal_ref = None
+        stale_seen = False
         if base["kind"] in ("deseason", "cdeseason") and kind != "ttf_t":
             inner = t.transformer_ if kind == "optional" else t
             seasonal_ref = np.asarray(inner.seasonal_, dtype=float).copy()
@@ -325,6 +332,11 @@ def execute(prop, scen):
                     continue
                 ov = min(op["overlap"], pos)
                 a, b = pos - ov, pos + op["take"]
+                if op.get("stale") and n_fit >= 12:
+                    # a batch of already seen time points from the middle of the training series
+                    a = 2 + op["take"] % 4
+                    b = a + min(op["take"], 5)
+                    res.probe("stale_update_inside_training")
                 if op.get("before") and PRE:
                     # older observations, from before the training start into it, handed over
                     # late (update_params=False: nothing may be re-estimated)
@@ -335,7 +347,12 @@ def execute(prop, scen):
                     continue
                 probe_z = y.iloc[max(0, n_fit - 6):n_fit]
                 before_t = None
-                if not op["up"]:
+                window_based = base["kind"] == "detrend" and (base.get("forecaster") or {}).get("kind") == "naive"
+                if op.get("stale") or op.get("before"):
+                    stale_seen = True
+                if not op["up"] and not (window_based and stale_seen):
+                    # (a window forecaster answers relative to its cutoff, which a stale batch
+                    # moves back: what transform returns then legitimately differs)
                     try:
                         with peers.paused():
                             before_t = t.transform(probe_z.copy())
